@@ -215,7 +215,14 @@ func runC12(c *Ctx, r *Report, tier string) {
 				}
 				seenAt[o.At] = true
 				nRaw++
-				reach1 := !c.reqAt(wo, o, litIs("P6", false))
+				force := litIs("P6", false)
+				for k, p := range wo.Params {
+					if typeName(p.Type()) == "Option" {
+						// the flag read from the option handed in, instead of being handed in
+						force = anyLit(force, litIs("Option.iniQuote("+c.pname(wo, k)+")", false))
+					}
+				}
+				reach1 := !c.reqAt(wo, o, force)
 				reach2 := !c.reqAt(wo, o, anyLit(litIs("eq(24, P2)", false), litIs("call:isPrint(P4)", true)))
 				r.Check(!reach1 && !reach2, "QUOTE", won, "raw output only when not forced and (not a string or printable)", c.ipos(o.At), "REQ(¬forceQuote) ∧ REQ(kind ≠ String ∨ isPrint(value))", fmt.Sprintf("¬forceQuote necessary=%v (¬String ∨ printable) necessary=%v", !reach1, !reach2))
 			}
@@ -247,8 +254,19 @@ func runC12(c *Ctx, r *Report, tier string) {
 	r.Check(okIP && len(other) == 0 && falseRet, "QUOTE", ipn, "isPrint ⇔ every rune is strconv.IsPrint", c.pos(ip.Pos()), "the predicate Unquote-free reading relies on: what is printable per strconv is written raw", "isPrint tests "+strings.Join(other, ",")+" / is not the all-runes strconv.IsPrint test")
 	// forceQuote operand
 	for _, in := range c.instrs(wg, c.isCallTo("writeOption")) {
-		a := in.(*ssa.Call).Call.Args
-		r.Check(strings.HasPrefix(c.term(a[6]), "Option.iniQuote("), "QUOTE", c.fname(wg), "forceQuote operand", c.ipos(in), "option.iniQuote", "forceQuote is "+trunc(c.term(a[6]), 60))
+		fq := c.argNamed(in.(*ssa.Call), "forceQuote")
+		if fq == nil {
+			// writeOption reads option.iniQuote itself (the raw-edge rule above is stated over that read)
+			hasOpt := false
+			for _, p := range wo.Params {
+				if typeName(p.Type()) == "Option" {
+					hasOpt = true
+				}
+			}
+			r.Check(hasOpt, "QUOTE", c.fname(wg), "forceQuote operand", c.ipos(in), "the option itself is handed to writeOption", "writeOption receives neither the quoting flag nor the option")
+			continue
+		}
+		r.Check(strings.HasPrefix(c.term(fq), "Option.iniQuote("), "QUOTE", c.fname(wg), "forceQuote operand", c.ipos(in), "option.iniQuote", "forceQuote is "+trunc(c.term(fq), 60))
 	}
 	c.whoStores(r, "QUOTE", "Option", "iniQuote", map[string]string{"(*IniParser).parse": ""})
 
@@ -397,8 +415,28 @@ func runC12(c *Ctx, r *Report, tier string) {
 	for _, in := range c.instrs(wg, c.isCallTo("writeOption")) {
 		call := in.(*ssa.Call)
 		nW++
-		for _, o := range c.originsOf(call.Call.Args[1], in) {
-			t := strings.ReplaceAll(o.Term, optT, "OPT")
+		nameOp := c.argNamed(call, "optionName")
+		nameAt := ssa.Instruction(in)
+		optIn := optT // how the option appears in the terms of the name
+		if nameOp == nil {
+			// writeOption is handed the option and derives the name itself: the name is what optionIniName yields there
+			for k, p := range wo.Params {
+				if typeName(p.Type()) != "Option" || k >= len(call.Call.Args) || c.term(call.Call.Args[k]) != optT {
+					continue
+				}
+				for _, nc := range c.instrs(wo, c.isCallTo("optionIniName")) {
+					if ncall := nc.(*ssa.Call); c.term(ncall.Call.Args[0]) == c.pname(wo, k) {
+						nameOp, nameAt, optIn = ncall, nc, c.pname(wo, k)
+					}
+				}
+			}
+		}
+		if nameOp == nil {
+			r.Fail("NAMES", c.fname(wg), "written option name", c.ipos(in), "the name handed to (or derived by) writeOption was not found")
+			continue
+		}
+		for _, o := range c.originsOf(nameOp, nameAt) {
+			t := strings.ReplaceAll(o.Term, optIn, "OPT")
 			t = strings.ReplaceAll(t, "&Option.tag(P0)", "&Option.tag(OPT)")
 			t = strings.ReplaceAll(t, "&Option.field(P0)", "&Option.field(OPT)")
 			// a loop over a constant key table {"_read-ini-name", "ini-name"} is the same cascade
